@@ -48,9 +48,22 @@ theorem sameFrame_factorLoop {isZero : V → Bool} {inv : V → V} {S : Skyline 
     · rename_i S1 h1
       exact (ih S1 h1).trans (sameFrame_factorStep h)
 
+/-- `factorize()` of an empty system returns at once (`if (n == 0) return;`) -/
+theorem factorize_empty {isZero : V → Bool} {inv : V → V} {S : Skyline V R} (hn : S.n = 0) :
+    factorize isZero inv S = .ok S := by
+  unfold factorize; rw [if_pos hn]
+
+/-- `factorize()` of a non-empty system -/
+theorem factorize_of_pos {isZero : V → Bool} {inv : V → V} {S : Skyline V R} (hn : S.n ≠ 0) :
+    factorize isZero inv S = if isZero (S.D.getD 0 0) then .precondition
+      else factorLoop isZero inv { S with D := S.D.setIfInBounds 0 (inv (S.D.getD 0 0)) } (S.n - 1) := by
+  unfold factorize; rw [if_neg hn]
+
 theorem sameFrame_factorize {isZero : V → Bool} {inv : V → V} {S S' : Skyline V R}
     (h : factorize isZero inv S = .ok S') : SameFrame S S' := by
-  unfold factorize at h
+  by_cases hn : S.n = 0
+  · rw [factorize_empty hn] at h; injection h with h; subst h; exact SameFrame.refl S
+  rw [factorize_of_pos hn] at h
   split at h
   · exact absurd h (by simp)
   · have := sameFrame_factorLoop (S.n - 1) S' h
